@@ -31,6 +31,7 @@ DECIDED = [
     "C03.8 'found present => not run': row of the run decision table; no run call outside the should_run guard (T.O1)",
     "C03.10 writers of started_worker / finished_worker (a reset 'finished' marker makes another worker scan and run again)",
     "C03.11 re-entrancy into an occupied test only after the per-node waiting budget is exhausted",
+    "C03.12 shared_results / shared_started_workers / shared_finished_workers aggregate the node and all its bridged copies, unfiltered",
 ]
 NOT_DECIDED = ["execution counts over real schedules", "retries combined with the two-step object creation (see known finding F6)"]
 MIN_INSTANCES = 30
@@ -96,6 +97,11 @@ def run(ctx: Ctx) -> None:
 
     ctx.call(T.t_a1_owner, "10")
     ctx.call(reentrancy_rule, "11")
+    from . import atoms as A
+
+    ctx.call(A.definitions, "12", only=('shared_results','shared_started_workers','shared_finished_workers','is_flat'))
+    ctx.call(A.involved_workers, "12i")
+    ctx.call(A.fresh_state, "12f")
 
 
 G = "cartgraph/graph.py"
